@@ -68,7 +68,7 @@ CLAIMED.update({
             "Structure of the chunk maker on all paths: one write per stream into the chunk current after roll-over, flush resets, records counted exactly when written, compressor closed before the buffer is read, chunk data is a copy, "
             "id/option/count come from the same intermediate chunk, the id suffix written equals the suffix matched, constructor-wired encoder/buffer pairs are never re-bound, every hand-written 4-bit / 16-bit msgpack header of the chunk framing carries a count proved to fit its width, the compressor handed to a chunk is the library's writer. Well-formedness of the encoded bytes and the limits as numbers are not decided.", "§4 C11"),
     "C12": ("static reset-exhaustiveness over the struct's fields (enumerated from types), use-after-release path rule, backward taint from long-lived sinks to transient-string sources with deep-copy sanitizers, who-may-write",
-            "Every LogRecord field is cleared on the recycle path or assigned by every producer; no use after the final release; transient strings reach long-lived maps/labels/constructors only through a deep copy; scratch buffers do not escape without a copy; no store of a record-transient string into any long-lived field, map or global of the per-record run-time set without a copy; "
+            "Every LogRecord field is cleared on the recycle path or assigned by every producer, and that path (from Release) is the only way a record gets back into the pool; no use after the final release; transient strings reach long-lived maps/labels/constructors only through a deep copy; scratch buffers do not escape without a copy; no store of a record-transient string into any long-lived field, map or global of the per-record run-time set without a copy; "
             "serialization and rewriting never store into a record. sync.Pool behaviour and sampling state are not decided.", "§4 C12"),
     "C15": ("static control-flow shape rules over the transform chain and container transforms; exactly-once enumeration of the sampling bookkeeping",
             "NARROW claim: only the composition and bookkeeping clauses (first DROP wins; containers return their nested chain's result; non-filtering transforms always PASS; truncate's cut uses the UTF-8 cleaner under the documented guard; drop's counters once per record; no cross-record state other than key-determined caches, whole-input memos and reviewed items; value matchers and extract delegate the match decision to the library on every path; the UTF-8 cleaner returns only what passed the library's ToValidUTF8). "
@@ -97,13 +97,13 @@ CLAIMED.update({
     "C10": ("static range proofs of header lengths (linear facts engine over SSA), sibling comparison of reserve/back-patch sites by canonical predicate, exactly-once path enumeration per loop iteration, who-may-write analysis",
             "The shape of the hand-rolled MessagePack encoder on every path: every header with a 4-bit or 16-bit length field is called with a length proved to fit (two 16-bit map counts bounded by the schema size are accepted on review); back-patched headers have the width and the selecting predicate of their reservation; "
             "the root map count starts at 1 and is incremented exactly once per emitted pair, the environment map announces the number of locators and writes one key and one value per locator even when empty; serialization never writes the record; every LogRewriter returns 0 <= n <= len(buffer), a non-negative maximum, and accounts for every operand it writes. "
-            "Decode equality, the bytes inside fields, escape semantics and the event-time encoding are not decided.", "§4 C10"),
+            "The two words of the event time are value.Unix() and value.Nanosecond() of the record's time (delegation checked). Decode equality, the bytes inside fields and escape semantics are not decided.", "§4 C10"),
 })
 
 CLAIMED.update({
     "C06": ("static recognition of injective key-encoding idioms over SSA (enumeration of key-building loops by shape, length-prefix rule), provenance agreement of tag / queue id / labels, who-writes/what-is-read rules for the .id file",
             "For all key tuples at once: every map key built from the elements of a []string (pipeline lookup key, metric key-set key; enumerated by shape) is a length-prefixed concatenation, which is injective on tuples of arbitrary byte strings, including empty values and separators; "
-            "tag, queue id and metric labels of a pipeline derive from the same key values and every output of the pipeline receives that tag / id; globally stored keys are deep copies; the .id file holds the unsanitised id and recovery returns its content. "
+            "tag, queue id and metric labels of a pipeline derive from the same key values and every output of the pipeline receives that tag / id; globally stored keys are deep copies; the .id file holds the unsanitised id and recovery returns its content; the pipeline constructor (which builds the tag in a shared scratch buffer) is only invoked with the global map's mutex held. "
             "The pipeline id itself (strings.Join/Split with ',') is not injective: listed as a known finding. Not decided: hash-suffix collisions of directory names, tag-template semantics.", "§4 C06"),
 })
 
